@@ -828,7 +828,11 @@ pub fn generate(seed: u64, tier: Tier, p: &Profile) -> Scenario {
                     ActionSpec::TreasuryWdr { to: (0..m).map(|_| (Cred::Key(g.kid()), g.amount())).collect(), policy: pol }
                 }
                 3 => ActionSpec::NoConfidence { prev },
-                4 => ActionSpec::UpdateCommittee { prev, remove: vec![Cred::Key(g.kid())], add: vec![(Cred::Key(g.kid()), g.r.below(600) as u32)], q: (2, 3) },
+                4 => {
+                    let k1 = g.kid();
+                    let k2 = (k1 + 1) % g.key_pool.max(2);
+                    ActionSpec::UpdateCommittee { prev, remove: vec![Cred::Key(k1), Cred::Key(k2)], add: vec![(Cred::Key(g.kid()), g.r.below(600) as u32)], q: (2, 3) }
+                }
                 5 => ActionSpec::NewConstitution { prev, script: if g.r.chance(1, 3) { Some(g.native_ids[0]) } else { None } },
                 _ => ActionSpec::Info,
             };
@@ -843,7 +847,17 @@ pub fn generate(seed: u64, tier: Tier, p: &Profile) -> Scenario {
                 None
             };
             plan.need += deposit as u128;
-            plan.pre.push(Op::Propose(ProposalSpec { deposit, reward: Cred::Key(g.kid()), action }, wit));
+            let reward = Cred::Key(g.kid());
+            if let ActionSpec::UpdateCommittee { prev, remove, add, q } = &action {
+                if g.r.chance(1, 3) {
+                    // a second proposal that differs only in the order its members-to-remove were listed
+                    let mut rev = remove.clone();
+                    rev.reverse();
+                    plan.need += deposit as u128;
+                    plan.pre.push(Op::Propose(ProposalSpec { deposit, reward: reward.clone(), action: ActionSpec::UpdateCommittee { prev: *prev, remove: rev, add: add.clone(), q: *q } }, None));
+                }
+            }
+            plan.pre.push(Op::Propose(ProposalSpec { deposit, reward, action }, wit));
         }
     }
     // ---- misc
